@@ -258,6 +258,9 @@ Definition step (g : cfg) (w : world) (o : op) : world :=
 
 Definition runw (g : cfg) (w : world) (ops : list op) : world := fold_left (step g) ops w.
 
+(** the steps of a schedule that belong to the client path (everything but the mirror tasks' own steps) *)
+Definition client_op (o : op) : bool := match o with Env _ _ _ => false | _ => true end.
+
 (** the primary side of a world: which connections exist, their Server state, and the log of
     every buffer written to a real server with the value returned to the caller *)
 Definition pconn (c : conn) := (c_shard c, c_index c, c_srv c, c_alive c).
